@@ -441,6 +441,24 @@ theorem slice_mut_starts_at_begin (k : VKind) (ms : List Buf) (hg : GoodAll ms) 
   refine ⟨j, off, ?_, h2, h3, h4⟩
   simp only [VBuf.mkSliceMut, VBuf.iterUninit, h1, Nat.zero_add]
 
+/-- **Fill law through a `VectoredSlice`** (`slice_mut(begin)` of a packed `default_set_len` container, the
+`read_exact` loop): let the container be full members `pre`, a member `m` (`(o, li, c)`), then `rest`, with `m` full
+and `rest` packed, or `rest` all empty; let `begin = capSum pre + off` with `off ≤ li`, `off < c` (so `begin ≤`
+total_len). Then `slice_mut(begin)` is the slice `(idx = |pre|, offset = off)`, and writing `d` (`|d| ≤` the slice's
+capacity) through it + `advance_vec_to(|d|)` succeeds and is: `pre` untouched, the first chunk stored and recorded
+`off` bytes into `m` (`fillMemberAt` = `setRoot (fillRoot (o + off) root chunk)`), the following chunks as ordinary
+member-wise fills of `rest` — i.e. exactly the bytes written become visible at their positions, nothing else changes. -/
+theorem vectored_slice_fill_law (pre : List Buf) (m : Buf) (rest : List Buf) (o li c off : Nat) (d : Bytes)
+    (hpre : AllFull pre) (hm : GoodM m o li c) (hoff : off ≤ li) (hoffc : off < c)
+    (hshape : (li = c ∧ Packed rest) ∨ AllEmpty rest) (hd : d.length ≤ (c - off) + capSum rest) :
+    ∃ s, (VBuf.base .list (pre ++ m :: rest)).mkSliceMut (capSum pre + off) = .ok s ∧
+      s.fill d = .ok (.vslice (.base .list (pre ++ fillMemberAt m off d :: fillMembers rest (d.drop (c - off))))
+        (capSum pre + off) pre.length off) := by
+  refine ⟨.vslice (.base .list (pre ++ m :: rest)) (capSum pre + off) pre.length off, ?_,
+    VBuf.fill_slice_packed pre m rest o li c off d hpre hm hoff hshape hd⟩
+  simp only [VBuf.mkSliceMut, VBuf.iterUninit,
+    skipCount_full_prefix pre m rest o li c off 0 0 hpre hm hoffc, Nat.zero_add]
+
 /-- a fill through a freshly created `owned_iter()` (first position, nothing recorded yet) of a
 `default_set_len` container is the single-buffer fill of member 0 and touches no other member — whatever the
 shape of the other members. (Later positions are only right when every earlier member's capacity has been
@@ -482,5 +500,17 @@ example :
   refine ⟨Or.inl ⟨0, 3, ⟨⟨by decide, by decide⟩, trivial, rfl, rfl, rfl⟩,
     Or.inr ⟨0, 1, 4, ⟨⟨by decide, by decide⟩, trivial, rfl, rfl, rfl⟩,
       ⟨⟨0, 2, ⟨⟨by decide, by decide⟩, trivial, rfl, rfl, rfl⟩⟩, trivial⟩⟩⟩, rfl, by decide⟩
+
+/-- the `read_exact` step: `[full 3/3, partial 1/4, empty 0/2].slice_mut(4)` (one byte into the second member),
+5 more bytes: they land at member 1 offset 1..4 and member 2 offset 0..2, and exactly they are recorded -/
+example :
+    let m0 : Buf := .root ⟨.vec, 3, [1, 2, 3]⟩
+    let m1 : Buf := .root ⟨.vec, 1, [4, 5, 6, 7]⟩
+    let m2 : Buf := .root ⟨.arrayvec, 0, [8, 9]⟩
+    (match (VBuf.base .list [m0, m1, m2]).mkSliceMut 4 with
+      | .ok s => (s.fill [0xA, 0xB, 0xC, 0xD, 0xE]).toOption.map
+          (fun v => v.members.map fun m => (m.getRoot.len, m.getRoot.mem))
+      | .error _ => none)
+      = some [(3, [1, 2, 3]), (4, [4, 0xA, 0xB, 0xC]), (2, [0xD, 0xE])] := by decide
 
 end Compio.Props.C10
